@@ -27,7 +27,7 @@ def run(ctx, kinds):
             if not r["violated"]:
                 raise HarnessError("RefLoop.tla no longer exposes F11")
     exe = build("seqdb")
-    nprog, nsteps = (24, 700) if ctx.quick else (240, 2500)
+    nprog, nsteps = (32, 700) if ctx.quick else (240, 2500)
     seeds = [ctx.seed * 1000 + i for i in range(nprog)]
 
     jobs = [(sd, None) for sd in seeds]
